@@ -4,6 +4,7 @@ import ast
 from ..match import facts, Q
 from ..srcmodel import attr_chain, call_name, unparse, norm_text, walk_no_nested
 from ..cfg import cfg_of, raised_class
+from ..dataflow import Origins
 from ..tables import reflect
 from .. import excflow
 from .. import linear
@@ -290,9 +291,13 @@ def v4_engine(run):
                   facts(vcfg, r.id, inline=True)]
     base_ret = [r for r in vcfg.by_kind("return") if r.ast.value is not None
                 and vcfg.same(r.ast.value, r.id, "valid(spec['base'], value)")]
-    run.check(bool(enum_raise) and
-              vcfg.computes("valid(spec['member'], val)") and
-              bool(base_ret), "V4",
+    vorg = Origins(vcfg, transparent={"split": "recv"})
+    member_ok = any(
+        len(c.args) == 2 and vcfg.itext(c.args[0], nd.id) == "spec['member']"
+        and {(a.kind, a.text) for a in vorg.of(c.args[1], nd.id)} ==
+        {("param", "value")}
+        for nd, c in vcfg.call_nodes("valid"))
+    run.check(bool(enum_raise) and member_ok and bool(base_ret), "V4",
               vt.qual + "::kinds", "enumeration, list member and base type are "
               "all checked", "validate_value_type changed", vt.loc())
 
@@ -380,8 +385,6 @@ def v6_validators_raise(run, data):
         ok = False
         sym = lambda e: e.id if isinstance(e, ast.Name) else None
         for t in cfg.by_kind("test"):
-            if not isinstance(t.ast, ast.Compare):
-                continue
             if normal_forms(t.ast, True, sym) is None:
                 continue
             tb = [b for b in cfg.succ[t.id] if cfg.nodes[b].kind == "true"]
